@@ -157,7 +157,7 @@ func zzRoundTrip(b []byte) {
 	if err != nil || l != len(b) {
 		return
 	}
-	out := make([]byte, l)
+	out := zzBytes("dirtyDst", l) // a reused buffer: arbitrary previous contents
 	n, err := WriteUnknownFields(out, fs)
 	zzAssert(zzAnd(err == nil, n == l), "written length differs from the computed length")
 	zzAssertEqBytes(out, b, "writing the tree back does not reproduce the bytes")
